@@ -107,7 +107,7 @@ PROPS['C03']['level_note'] += ' ' + TRUST_COMMON
 PROPS.update({
     'C02': _ev(['codec', 'validate'], 'Unbounded proofs that encode_vli appends exactly the Variable Byte Integer of the value (spec function written from OASIS 1.5.5), that the size function equals its length, '
                'and that the PUBLISH / SUBSCRIBE remaining-length and property-length computations equal the wire layouts of the specification with no overflow or truncation. '
-               'The step interpreter (process_byte_slice_encoding, process_encoding_step, Encoder::encode) is proved to append exactly flat(steps) over any number of calls and buffer sizes; that each packet\'s steps denote the OASIS layout is bounded (E-B reference decoder, Kani).', design_ref='DESIGN.md 3/C02',
+               'The step interpreter (process_byte_slice_encoding, process_encoding_step, Encoder::encode) is proved to append exactly flat(steps) over any number of calls and buffer sizes; for MQTT 3.1.1 the chain is closed: Encoder::reset leaves steps whose flat() is the OASIS 3.1.1 wire image of PUBLISH, SUBSCRIBE, UNSUBSCRIBE, PUBACK/PUBREC/PUBREL/PUBCOMP, PINGREQ, DISCONNECT (step writers, getters and first-byte function proved). CONNECT and the MQTT 5 step writers are bounded (E-B reference decoder, Kani).', design_ref='DESIGN.md 3/C02',
                technique='Verus function contracts on the extracted length / size / encode_vli functions against spec functions of the OASIS wire layouts + Kani harnesses of the step encoder (bounded stand-in for byte production)',
                level_note=TRUST_COMMON + ' String byte length is an uninterpreted function blen(); &str-length functions are assumed here and decided by E-K.'),
     'C16': _ev(['validate'], 'Unbounded proofs, in both directions (Ok <=> rules hold), for validate_user_properties, validate_publish_packet_outbound(_internal), '
